@@ -97,7 +97,7 @@ def gen(rng, tier):
 
 def _read(c, path, which):
     try:
-        with lib.time_limit(20):
+        with lib.time_limit(8):
             f = S.open_reader(c, path, which)
             return S.view(f, c)
     except lib.HarnessError:
@@ -139,7 +139,7 @@ def impl(case):
             try:
                 for which in ('memmap', 'read'):
                     try:
-                        with lib.time_limit(20):
+                        with lib.time_limit(8):
                             res[which] = S.wind_view(S.wind_open(case, p, which), case)
                     except lib.HarnessError:
                         raise
